@@ -299,6 +299,23 @@ pub fn c11_specs(tier: Tier) -> Vec<Spec> {
             }
         }
     }
+    // subpatterns that can match invalid UTF-8 although the DEFINITION's patterns cannot: never
+    // referenced, or completed by the user into a valid sequence (only the subpattern-level check can
+    // reject these in a str lexer; a byte lexer accepts them)
+    for (body, is_b) in [("(?-u:\\xC3)", false), ("(?-u:[\\x80-\\xbf])", false), ("(?-u:[^\"])*", false), ("a|(?-u:\\xff)", false), ("\\xC3", true), ("[\\x80-\\xbf]", true), ("\\xe2\\x82", true)] {
+        for user in ["k", "(?&s)(?-u:\\xA9)", "(?-u:\\xC3)(?&s)", "(?-u:\\xe2)(?&s)(?-u:\\xac)|z", "(?&s)(?-u:\\xac)"] {
+            for utf8 in [true, false] {
+                let sp = Spec::new(utf8, vec![Pat::regex(user), Pat::token("q")]);
+                specs.push(if is_b { sp.with_bsub("s", body.as_bytes()) } else { sp.with_sub("s", body) });
+                let sp = Spec::new(utf8, vec![Pat::skip(user), Pat::token("q")]);
+                specs.push(if is_b { sp.with_bsub("s", body.as_bytes()) } else { sp.with_sub("s", body) });
+            }
+        }
+        // through a second subpattern that is valid UTF-8 as a whole
+        let sp = Spec::new(true, vec![Pat::regex("x(?&t)")]);
+        let sp = if is_b { sp.with_bsub("s", body.as_bytes()) } else { sp.with_sub("s", body) };
+        specs.push(sp.with_sub("t", "(?&s)(?-u:\\xA9)|y"));
+    }
     // byte-string subpatterns
     for (body, user) in [(&b"\xff"[..], "a(?&s)"), (b"[\x80-\xbf]", "(?&s)+"), (b"a|\xfe", "x(?&s)y"), (b".", "(?&s)z")] {
         specs.push(Spec::new(false, vec![Pat::regex(user)]).with_bsub("s", body));
